@@ -185,6 +185,10 @@ mod builtins {
         format as format_string, format_printf_with, FormatConversion, FormatStyle,
     };
     use crate::utils::{safe_sort, splitn_whitespace, untrusted_size_hint};
+
+    /// The widest indentation `indent` and `tojson` accept: it is allocated
+    /// as a string of that many spaces.
+    const MAX_INDENT_WIDTH: usize = 100_000;
     use crate::value::merge_object::{MergeDict, MergeSeq};
     use crate::value::ops::{self, as_f64, LenIterWrap};
     use crate::value::{
@@ -1203,6 +1207,12 @@ mod builtins {
         };
         ok!(args.assert_all_used());
         if let Some(indent) = indent {
+            if indent > MAX_INDENT_WIDTH {
+                return Err(Error::new(
+                    ErrorKind::InvalidOperation,
+                    "indentation is too large",
+                ));
+            }
             let indentation = " ".repeat(indent);
             serialize_json(
                 value,
@@ -1284,6 +1294,12 @@ mod builtins {
         };
         ok!(kwargs.assert_all_used());
 
+        if width > MAX_INDENT_WIDTH {
+            return Err(Error::new(
+                ErrorKind::InvalidOperation,
+                "indentation is too large",
+            ));
+        }
         let input = strip_trailing_newline(value.as_str());
         let indent_with = " ".repeat(width);
         let mut output = String::new();
